@@ -20,6 +20,9 @@ RULE = (
     'slice_edge*(1+-1e-9), 0 and 1) x all 7 tracer subsets x HOD parameter draws (assembly bias, conformity, rank and velocity-bias terms, ic) x RSD on/off x box observer / '
     'light-cone origin x Nthread; each catalogue compared row by row with the reference. non-trivial = distinct cases with >= 2 galaxies and >= 1 planted decisive random'
 )
+RULE += (
+    ' Added after seeded round 9: decoy requests that switch every optional term on while the checked request omits it (sparse dicts leave default-valued keys out); every fifth case with halo ids 2^60 + odd.'
+)
 ASSUMPTIONS = [
     'a random number within 1e-11 (relative) of a slice edge is ambiguous; such draws are re-drawn by the generator, planted ones sit at 1e-9 and are decisive',
     'ids, masses and unshifted coordinates compared exactly; velocities and RSD-shifted coordinates at 1e-11 relative (fastmath)',
